@@ -56,7 +56,7 @@ Proof. repeat split; vm_compute; reflexivity. Qed.
 Lemma ex_ping_hyp :
   mem LFb ex_ping = false /\
   exists m, parse_msg (fun _ => true) (dec0 ex_ping) = Ok (Some m) /\ is_ping (m_command m) = true /\
-            m_args m = [[98]] /\ valid_arg [98] = true.
+            m_args m = [[98]] /\ valid_arg [98] = true /\ encodable [98] = true.
 Proof. split; [vm_compute; reflexivity|]. eexists. repeat split; vm_compute; reflexivity. Qed.
 
 (* the firewall is exactly `except Exception`: a BaseException from an Irc handler does get out *)
@@ -71,3 +71,19 @@ Lemma ex_partial :
   snd (m_p (run_reads N (fun _ => true) dec0 h_count (fun _ _ s => HR s false None) []
                       [RData [70; 79; 79; 10; 66; 65; 82; 10]] (init 0))) = 2.
 Proof. vm_compute. reflexivity. Qed.
+
+(* the send side: with a decode_raw_line that maps undecodable bytes to lone surrogates ('surrogateescape'),
+   the parse-clean line "PING :caf\xe9" makes outbuffer.encode() raise in _sendIfMsgs: outside every firewall *)
+Definition dec_se (b : bytes) : str := map (fun c => if N.ltb c 128 then c else c + 56320) b.
+Definition w_surrogate : list recv := [RData [80; 73; 78; 71; 32; 58; 99; 97; 102; 233; 10]].
+Lemma surrogate_escapes vt :
+  let ms := run_reads unit vt dec_se h0 h0 [] w_surrogate (init tt) in
+  parse_excs vt dec_se w_surrogate [] = [] /\ dom vt dec_se w_surrogate [] = false /\
+  alive ms = false /\ escapes ms = [Some (XE UnicodeError)] /\ sent (fst (m_p ms)) = [].
+Proof. cbv zeta. repeat split; vm_compute; reflexivity. Qed.
+(* the same bytes through a 'replace' decoder (U+FFFD) are inside the domain and answered *)
+Definition dec_rep (b : bytes) : str := map (fun c => if N.ltb c 128 then c else 65533) b.
+Lemma replace_survives vt :
+  let ms := run_reads unit vt dec_rep h0 h0 [] w_surrogate (init tt) in
+  dom vt dec_rep w_surrogate [] = true /\ alive ms = true /\ sent (fst (m_p ms)) = [[99; 97; 102; 65533]].
+Proof. cbv zeta. repeat split; vm_compute; reflexivity. Qed.
